@@ -615,7 +615,13 @@ def main(argv=None):
                     if P.nontrivial(c) or len(corr["samples"]) < 1:
                         corr["samples"].append({"case": c, "impl": ires, "model": mres})
                 if verdict:
-                    fk = P.finding_key(c, ires, mres) if hasattr(P, "finding_key") else None
+                    fk = None
+                    if hasattr(P, "finding_key"):
+                        import inspect
+                        if len(inspect.signature(P.finding_key).parameters) >= 4:
+                            fk = P.finding_key(c, ires, mres, verdict)   # may look at which predicate failed
+                        else:
+                            fk = P.finding_key(c, ires, mres)
                     if fk and fk in open_classes:
                         dist["known-finding:" + fk] = dist.get("known-finding:" + fk, 0) + 1
                         continue
